@@ -589,6 +589,7 @@ class _GroupByState(Generic[R, T_co]):
         self._iterator = iterator
         self._key_func = key_func
         self._current_value = self._sentinel
+        self.current_group = None
 
     async def step(self) -> None:
         # can raise StopAsyncIteration
